@@ -673,3 +673,49 @@ def rule_N5(ctx):
     if n < 15:
         raise AnalysisError(f'only {n} table lookups found (floor 15)')
     return r
+
+
+# ---------------------------------------------------------------------------------------------- D5
+def rule_D5(ctx):
+    """Leaf calls that raise undocumented classes are contained: next() without default sits under a StopIteration handler,
+    struct.pack of a caller-supplied float under an OverflowError handler."""
+    m = ctx.m
+    r = RuleResult('D5', 'StopIteration from next() and OverflowError from struct.pack never reach the caller')
+    n = 0
+    for f in m.funcs.values():
+        if f.mod in ('__main__',) or (f.cls in ('MXFPFormat', 'Binary8Format') and f.name.startswith(('createLUT', 'slow_'))):
+            continue
+        tries = [t for t in own_walk(f.node) if isinstance(t, ast.Try)]
+
+        def handled(node, names):
+            for t in tries:
+                if any(node is y for b in t.body for y in ast.walk(b)):
+                    for h in t.handlers:
+                        if G.handler_names(h) & (set(names) | {'Exception', '*'}):
+                            return True
+            return False
+        for x in own_walk(f.node):
+            if isinstance(x, ast.Call) and isinstance(x.func, ast.Name) and x.func.id == 'next' and len(x.args) == 1 and not x.keywords:
+                n += 1
+                if handled(x, ['StopIteration']):
+                    r.ok(f'{f.key}:{norm(x)}')
+                else:
+                    is_gen = any(isinstance(y, (ast.Yield, ast.YieldFrom)) for y in own_walk(f.node))
+                    r.fail(f.key, x, 'next() without a default outside a StopIteration handler: an exhausted iterator surfaces as StopIteration'
+                           + (' (RuntimeError inside this generator)' if is_gen else '') + ', which is not a documented exception', loc=f.loc(x))
+            if isinstance(x, ast.Call) and ast.unparse(x.func) == 'struct.pack':
+                n += 1
+                fmt = x.args[0] if x.args else None
+                is_float = not isinstance(fmt, ast.Constant) or any(ch in str(fmt.value) for ch in 'efd')
+                val = x.args[1] if len(x.args) > 1 else None
+                only_inf = val is not None and not any(isinstance(y, ast.Name) and y.id not in ('float', 'f') for y in ast.walk(val)) and \
+                    all(isinstance(y.args[0], ast.Constant) and str(y.args[0].value).lstrip('+-') in ('inf', 'nan') for y in ast.walk(val)
+                        if isinstance(y, ast.Call) and ast.unparse(y.func) == 'float') and any(isinstance(y, ast.Call) for y in ast.walk(val))
+                if not is_float or only_inf or handled(x, ['OverflowError', 'ArithmeticError']):
+                    r.ok(f'{f.key}:{norm(x)}')
+                else:
+                    r.fail(f.key, x, 'struct.pack of a float can raise OverflowError (value too large for the format); it is not caught here and is not a '
+                           'documented exception class', loc=f.loc(x))
+    if n < 6:
+        raise AnalysisError(f'only {n} next()/struct.pack sites found (floor 6)')
+    return r
